@@ -202,7 +202,10 @@ class Real:
         c = self.env["parse_cache"]
         v = c.get(pdu)
         if v is None:
-            v = self.env["service"].UDSRequest.parse_dynamic(pdu)
+            try:
+                v = self.env["service"].UDSRequest.parse_dynamic(pdu)
+            except Exception as e:  # noqa: BLE001 - reported through the crash of handle_request on the same bytes
+                v = type("ParseRaises" + type(e).__name__, (), {})()
             if len(c) < 300000:
                 c[pdu] = v
         return v
